@@ -96,6 +96,28 @@ def exec_op(op: dict, keep: dict | None = None) -> str:
                 keep["data_mutated"] = before is not None and before != {k: id(v) for k, v in data.items()}
                 keep["params_mutated"] = snap != _params_digest(params)
             return _frame_digest(res)
+        if op["op"] == "reform_inplace":
+            # a user edits the environment they were handed, in place, and simulates with it; nothing of this may
+            # reach environments set up later
+            params, functions = set_up_policy_environment(op["date"])
+            leaves = []
+
+            def walk(t, path):
+                if isinstance(t, dict):
+                    for k, v in t.items():
+                        if k not in ("rounding", "datum"):
+                            walk(v, path + [k])
+                elif isinstance(t, (int, float)) and not isinstance(t, bool) and np.isfinite(t):
+                    leaves.append(path)
+
+            walk(params, [])
+            rr = random.Random(op["seed"])
+            for path in rr.sample(leaves, min(len(leaves), 40)):
+                cur = params
+                for k in path[:-1]:
+                    cur = cur[k]
+                cur[path[-1]] = cur[path[-1]] * 1.5 + 1
+            return _params_digest(params)
         if op["op"] == "vectorize":
             from _gettsim.vectorization import make_vectorizable
             mod = importlib.import_module(op["module"])
@@ -160,8 +182,10 @@ def random_history(rnd, length):
                       "targets": rnd.choice([None, ["kindergeld_m", "eink_st_y_sn"], ["arbeitsl_geld_2_m_bg"]]),
                       "rounding": rnd.random() < 0.7, "as_dict": rnd.random() < 0.5,
                       "int_as_float": rnd.random() < 0.3})
-        elif k < 0.75:
+        elif k < 0.7:
             h.append({"op": "reform", "date": d, "seed": rnd.randint(0, 50), "targets": ["kindergeld_m", "sozialv_beitr_arbeitnehmer_m"]})
+        elif k < 0.82:
+            h.append({"op": "reform_inplace", "date": d, "seed": rnd.randint(0, 50)})
         else:
             e = rnd.choice(rules)
             h.append({"op": "vectorize", "rule": e["fname"], "module": e["module"], "date": d})
@@ -184,6 +208,11 @@ def run(tier: str) -> int:
     with ThreadPoolExecutor(max_workers=12) as pool:
         for hi in range(n_hist):
             h = random_history(rnd, length)
+            d0 = rnd.choice(["2021-01-01", "2023-07-01", "2019-07-01"])
+            y = int(d0[:4])
+            h = h[:2] + [{"op": "reform_inplace", "date": f"{y}-03-01", "seed": rnd.randint(0, 50)}, {"op": "setup", "date": d0},
+                         {"op": "simulate", "date": d0, "seed": rnd.randint(0, 50), "targets": None, "rounding": True,
+                          "as_dict": False, "int_as_float": False}] + h[2:]
             futures = [pool.submit(fresh, op) for op in h]
             s0 = process_state()
             prefix = []
